@@ -50,15 +50,20 @@ def exhaustive(quick):
         prog = [[("spawn", 1), ("mark", 1)], body, [("mark", 20), ("notify", 1, 1), ("mark", 21)], [("mark", 30), ("notify", 1, 2), ("mark", 31)]]
         for sched in (["call m t2", "step 125", "step 125", "step 250"], ["step 125", "call m t2", "step 125", "call m t3", "step 250"], ["step 300", "call m t3", "step 300"]):
             cases.append(["reset", schedgen.script_line(prog), "call m t0", "call m t1", "step 0"] + sched + ["step 1000", "step 1000"])
+    # one object carrying endon registrations under several names: every order of notifying them
+    cases += schedgen.endon_family(quick)
     return cases
 
 
 def check(ctx):
     gens = [("sync", 500, 40000, sync_case),
-            ("hub", 150, 8000, lambda r: schedgen.gen_case(r, schedgen.gen_hub_prog(r), ncalls=1))]
+            ("hub", 150, 8000, lambda r: schedgen.gen_case(r, schedgen.gen_hub_prog(r), ncalls=1)),
+            ("endon", 300, 15000, schedgen.gen_endon_case)]
     rule = ("programs of 2-6 thread bodies over up to 3 objects and 3 names (waittill, waittill_any, notify, endon, delete, thread, "
             "waitthread, wait, pause, end), and programs whose threads wait on / notify a THREAD object of their own script instance (local.p0 waittill / notify), under random host calls and frame schedules, plus every short history of two workers and a "
-            "notifier over one object; non-trivial = at least one accepted command; distinct by SHA-1")
+            "notifier over one object; programs whose threads are named in `endon` of ONE object under several event names at the same "
+            "time (k threads / distinct names / parked on a gate, a timer or paused; the names notified in every order, inside one "
+            "command and by host calls between frames; random mixtures with waittill, delete and a second object); non-trivial = at least one accepted command; distinct by SHA-1")
     return schedcheck.run(ctx, PROP, PROPS_MODULE, PROPS_FILE, gens, TRUSTED, ASSUME, rule, exhaustive=exhaustive)
 
 
